@@ -14,7 +14,7 @@ for d in seeded/*/; do
   git -C "$repo" checkout -q -- . && git -C "$repo" apply "$here/$d/patch.diff" || { echo "$name APPLY-FAILED" >> "$out"; continue; }
   own=${name%%-*}
   for c in $checks; do
-    if [ "$c" = OWN ]; then case " $fast " in *" $own "*) continue;; esac; c=$own; fi
+    if [ "$c" = OWN ]; then case " $checks " in *" $own "*) continue;; esac; c=$own; fi
     grep -q '"status": "neutralised"' "$here/$d/meta.json" && { echo "$name $c neutralised" >> "$out"; continue; }
     o=$(VERIF_REPO="$repo" timeout 1200 ./check.sh $c quick 2>&1); rc=$?
     echo "$name $c exit=$rc $(echo "$o" | grep -c '^VIOLATION') violations" >> "$out"
